@@ -62,6 +62,9 @@ impl Rec {
     pub fn has_splits(&self) -> bool {
         self.ledger.iter().any(|s| s.iter().any(|c| c.split() != Rat::ONE))
     }
+    pub fn has_capreturn(&self) -> bool {
+        self.ledger.iter().any(|s| s.iter().any(|c| !c.cr().is_zero()))
+    }
     pub fn has_events(&self) -> bool {
         self.ledger.iter().any(|s| s.iter().any(|c| !c.ac().is_zero() || !c.cr().is_zero()))
     }
@@ -124,6 +127,8 @@ pub enum Fills {
     Halves,
     /// as Halves, but a line of another security sits between the two fills
     HalvesSeparated,
+    /// only purchases are recorded as two separated fills (sales stay one line)
+    BuysSeparated,
 }
 
 #[derive(Debug, Clone, Copy)]
@@ -132,6 +137,8 @@ pub struct Render {
     pub order: Order,
     pub fills: Fills,
     pub lower: bool,
+    /// add cash DIVIDEND lines for every security (must change only the dividend totals)
+    pub dividends: bool,
 }
 
 pub fn gbp(x: Rat) -> CurrencyAmount {
@@ -161,14 +168,15 @@ fn cell_lines(sec: &str, date: NaiveDate, c: &Cell, r: &Render, out: &mut Vec<Tr
                 },
             }
         };
-        match r.fills {
-            Fills::One => out.push(mk(q, p, f)),
+        let fills = if r.fills == Fills::BuysSeparated { if is_buy { Fills::HalvesSeparated } else { Fills::One } } else { r.fills };
+        match fills {
+            Fills::One | Fills::BuysSeparated => out.push(mk(q, p, f)),
             Fills::Halves | Fills::HalvesSeparated => {
                 let h = q.div(two);
                 // equal total consideration: h(p-d) + h(p+d) = q p ; d < p keeps prices positive
                 let d = if Rat::ONE.lt(p) { Rat::ONE } else { p.div(two) };
                 out.push(mk(h, p.sub(d), f));
-                if r.fills == Fills::HalvesSeparated {
+                if fills == Fills::HalvesSeparated {
                     out.push(Transaction {
                         date,
                         ticker: SEP_TICKER.to_string(),
@@ -227,6 +235,17 @@ pub fn render(rec: &Rec, r: &Render) -> Vec<Transaction> {
         let date = date_of(rec, r.base, d);
         for (si, sec) in rec.secs.iter().enumerate() {
             cell_lines(sec, date, &rec.ledger[si][d - 1], r, &mut out);
+        }
+    }
+    if r.dividends {
+        for (k, sec) in rec.secs.iter().enumerate() {
+            for d in [1, rec.n()] {
+                out.push(Transaction {
+                    date: date_of(rec, r.base, d),
+                    ticker: tick(sec, r.lower),
+                    operation: Operation::Dividend { total_value: gbp(Rat::int(7 + k as i64)), tax_paid: gbp(Rat::int(1)) },
+                });
+            }
         }
     }
     match r.order {
